@@ -264,6 +264,10 @@ func init() {
 			}
 		}
 		e.world["xuniv"] = U
+		// facts about the JSON text `null`
+		e.assume(jsonValid(nullBlob))
+		e.assume(tEq(jcanon(nullBlob), nullBlob))
+		e.assume(tNot(xisObj(nullBlob)))
 		return ret(e.newSlice(vals))
 	}
 	// verifXattrHas/Get: observers on a raw xattrs blob (harness oracle side)
